@@ -19,6 +19,7 @@ package main
 // incomplete by design: what it cannot prove goes to stage 3 or is a violation.
 
 import (
+	"go/constant"
 	"fmt"
 	"go/token"
 	"go/types"
@@ -834,6 +835,11 @@ func (p *prover) lenFacts(key string, x ssa.Value) {
 		if isLoopHeaderPhi(t) || p.phiDepth > 2 || p.subst != nil {
 			return
 		}
+		// a constant lower bound that holds edge by edge: a constant's length, or "known non-empty on the way here"
+		// (the `if s == "" { s = "/" }` idiom: φ("/", s) with s != "" on the other edge)
+		if lb, ok := phiLenLowerBound(t); ok && lb > 0 {
+			p.ge(e, newLin(lb))
+		}
 		p.phiDepth++
 		defer func() { p.phiDepth-- }()
 		var first linExpr
@@ -886,6 +892,9 @@ func (p *prover) interval(v ssa.Value, d int) (lo, hi *int64) {
 		return mk(c), mk(c)
 	}
 	tlo, thi := typeRange(v.Type())
+	if l, h, ok := tableFieldRange(v); ok {
+		return mk(l), mk(h)
+	}
 	switch t := v.(type) {
 	case *ssa.Convert:
 		if isIntType(t.X.Type()) {
@@ -1580,4 +1589,183 @@ func calleeTableBound(f *ssa.Function) (int64, bool) {
 		}
 	}
 	return 0, false
+}
+
+// phiLenLowerBound: the smallest, over the incoming edges of a merge φ of strings or slices, of a constant lower
+// bound on the incoming value's length that holds on that edge: the length of a constant string, or 1 when the edge
+// is only taken where the value was found non-empty (x != "", len(x) != 0, len(x) > 0 — as a guard dominating the
+// predecessor, or as the very branch that leads into the φ's block).
+func phiLenLowerBound(ph *ssa.Phi) (int64, bool) {
+	b := ph.Block()
+	fn := b.Parent()
+	best := int64(-1)
+	for i, ev := range ph.Edges {
+		if i >= len(b.Preds) {
+			return 0, false
+		}
+		lb := int64(0)
+		if c, ok := ev.(*ssa.Const); ok && c.Value != nil && c.Value.Kind() == constant.String {
+			lb = int64(len(constant.StringVal(c.Value)))
+		} else {
+			pred := b.Preds[i]
+			var gs []guardInfo
+			if li := lastInstr(pred); li != nil {
+				gs = dominatingGuards(fn, nil, li)
+				if iff, ok := li.(*ssa.If); ok && pred.Succs[0] != pred.Succs[1] {
+					v, flip := stripNot(iff.Cond)
+					taken := pred.Succs[0] == b
+					gs = append(gs, guardInfo{If: iff, True: taken, Cond: v, Pos: taken != flip})
+				}
+			}
+			for _, g := range gs {
+				if nonEmptyGuard(g, ev) {
+					lb = 1
+				}
+			}
+		}
+		if best < 0 || lb < best {
+			best = lb
+		}
+	}
+	return best, best >= 0
+}
+
+// nonEmptyGuard: does the guard say that v (a string or slice) is not empty?
+func nonEmptyGuard(g guardInfo, v ssa.Value) bool {
+	bo, ok := g.Cond.(*ssa.BinOp)
+	if !ok {
+		return false
+	}
+	isV := func(x ssa.Value) bool { return x == v }
+	isLenV := func(x ssa.Value) bool {
+		c, ok := x.(*ssa.Call)
+		if !ok {
+			return false
+		}
+		bi, ok := c.Call.Value.(*ssa.Builtin)
+		return ok && bi.Name() == "len" && len(c.Call.Args) == 1 && c.Call.Args[0] == v
+	}
+	emptyStr := func(x ssa.Value) bool {
+		c, ok := x.(*ssa.Const)
+		return ok && c.Value != nil && c.Value.Kind() == constant.String && constant.StringVal(c.Value) == ""
+	}
+	zero := func(x ssa.Value) bool { n, ok := constInt(x); return ok && n == 0 }
+	switch bo.Op {
+	case token.EQL: // holds = empty; the guard must say it does NOT hold
+		if (isV(bo.X) && emptyStr(bo.Y)) || (isV(bo.Y) && emptyStr(bo.X)) || (isLenV(bo.X) && zero(bo.Y)) || (isLenV(bo.Y) && zero(bo.X)) {
+			return !g.Pos
+		}
+	case token.NEQ:
+		if (isV(bo.X) && emptyStr(bo.Y)) || (isV(bo.Y) && emptyStr(bo.X)) || (isLenV(bo.X) && zero(bo.Y)) || (isLenV(bo.Y) && zero(bo.X)) {
+			return g.Pos
+		}
+	case token.GTR: // len(v) > 0
+		if isLenV(bo.X) && zero(bo.Y) {
+			return g.Pos
+		}
+	case token.LSS: // 0 < len(v)
+		if isLenV(bo.Y) && zero(bo.X) {
+			return g.Pos
+		}
+	}
+	return false
+}
+
+var tableFieldMemo = map[string][2]int64{}
+
+// tableFieldRange: v is an integer field of an element of a package-level table (slice or array of structs) that only
+// its initialiser ever assigns; the range of that field over the table's rows, as the evaluated initialiser gives it.
+func tableFieldRange(v ssa.Value) (lo, hi int64, ok bool) {
+	var elem ssa.Value
+	var st *types.Struct
+	field := -1
+	switch t := v.(type) {
+	case *ssa.Field:
+		elem, field = t.X, t.Field
+		st, _ = t.X.Type().Underlying().(*types.Struct)
+	case *ssa.UnOp:
+		if t.Op != token.MUL {
+			return 0, 0, false
+		}
+		fa, isFA := t.X.(*ssa.FieldAddr)
+		if !isFA {
+			return 0, 0, false
+		}
+		elem, field = fa.X, fa.Field
+		if pt, isP := fa.X.Type().Underlying().(*types.Pointer); isP {
+			st, _ = pt.Elem().Underlying().(*types.Struct)
+		}
+	default:
+		return 0, 0, false
+	}
+	if st == nil || field < 0 || !isIntType(v.Type()) {
+		return 0, 0, false
+	}
+	// the element: table[i] as a value (load of an IndexAddr) or as an address (the IndexAddr itself); a range
+	// variable is a local that is stored the element once per iteration
+	if a, isAlloc := elem.(*ssa.Alloc); isAlloc {
+		var only ssa.Value
+		n := 0
+		for _, r := range *a.Referrers() {
+			if st, isSt := r.(*ssa.Store); isSt && st.Addr == ssa.Value(a) {
+				only = st.Val
+				n++
+			}
+		}
+		if n != 1 {
+			return 0, 0, false
+		}
+		elem = only
+	}
+	var ia *ssa.IndexAddr
+	switch e := elem.(type) {
+	case *ssa.UnOp:
+		if e.Op == token.MUL {
+			ia, _ = e.X.(*ssa.IndexAddr)
+		}
+	case *ssa.IndexAddr:
+		ia = e
+	}
+	if ia == nil {
+		return 0, 0, false
+	}
+	var g *ssa.Global
+	switch x := ia.X.(type) {
+	case *ssa.UnOp:
+		if x.Op == token.MUL {
+			g, _ = x.X.(*ssa.Global)
+		}
+	case *ssa.Global:
+		g = x
+	}
+	if g == nil || g.Pkg == nil || !isModPkg(g.Pkg.Pkg.Path()) || theProgram == nil || assignedOutsideInit(g) {
+		return 0, 0, false
+	}
+	name := st.Field(field).Name()
+	key := g.Pkg.Pkg.Path() + "." + g.Name() + "." + name
+	if r, have := tableFieldMemo[key]; have {
+		return r[0], r[1], r[0] <= r[1]
+	}
+	tableFieldMemo[key] = [2]int64{1, 0}
+	val, und := evalGlobal(theProgram, strings.TrimPrefix(strings.TrimPrefix(g.Pkg.Pkg.Path(), modPath), "/"), g.Name())
+	sl, isSl := val.(avals)
+	if !isSl || und != "" || len(sl.cells) == 0 {
+		return 0, 0, false
+	}
+	first := true
+	for _, c := range sl.cells {
+		n, isInt := c.f[name].(aint)
+		if !isInt {
+			return 0, 0, false
+		}
+		if first || int64(n) < lo {
+			lo = int64(n)
+		}
+		if first || int64(n) > hi {
+			hi = int64(n)
+		}
+		first = false
+	}
+	tableFieldMemo[key] = [2]int64{lo, hi}
+	return lo, hi, true
 }
